@@ -62,7 +62,11 @@ def neededBy (t : Nat) : Nat :=
   | 4 | 8 | 10 | 16 | 17 | 18 => 8
   | _ => 0
 
-/-- the `len(*b) < t.minLen()` guard covers every unguarded read of `Interpret`, for every FieldType -/
+/-- the `len(*b) < t.minLen()` guard covers every unguarded read of `Interpret`, for every FieldType.  (The over-long
+branch added by the F24 repair, `wideUint` / `wideInt`, reads the field with `for _, x := range b` only: no index or
+slice expression — `panic_sites_reviewed` below is unchanged by it — and `shift = 64 - 8·len` is computed after the
+`len(b) > 8` return, so it is 0 … 56; the values it returns are `uint64` / `int64` / `[]byte`, kinds that
+`writeValue_covers_interpret` already covers.) -/
 theorem interpret_reads_in_range (b : Bytes) (t : Nat) (h : ¬ b.length < minLen t) : neededBy t ≤ b.length := by
   have : neededBy t ≤ minLen t := by
     unfold neededBy minLen
